@@ -14,7 +14,7 @@ V_DICT = L("ValueDataType", "equal_to", dict)
 V_LIST = L("ValueDataType", "equal_to", list)
 V_EQ1 = L("Value", "equal_to", 1)
 
-PRIMS = [("prim", p) for p in ("a", "b", "", 0, 1, -1, 1.5, True, False)]
+PRIMS = [("prim", p) for p in ("a", "b", "", 0, 1, -1, 1.5, True, False, 1.0)]
 BARE = [("map", None, None, None), ("list", None, None, None), ("mol", None, None, None, None)]
 MAPS = [
     ("map", L("Key", "in_", ["a", 1]), None, None),
@@ -30,6 +30,9 @@ MAPS = [
     ("map", ("lit", 1), ("lit", 1), None),
     ("map", ("lit", 1), None, None),       # an explicit MapValue with an int key: NOT what the primitive 1 converts to
     ("map", ("lit", True), None, None),
+    ("map", ("or", L("Key", "less_than", 2), L("Key", "equal_to", "a")), None, None),   # one branch undefined for str keys
+    ("map", K_OR, V_DICT, None),                                                          # (k1 or k2) and v: mixed operators
+    ("map", ("lit", 2.0), None, None),                                                    # whole-number float key
 ]
 LISTS = [
     ("list", L("Index", "less_than", 1), None, None),
@@ -40,6 +43,7 @@ LISTS = [
     ("list", None, V_AND, None),
     ("list", I_OR, None, None),
     ("list", None, ("lit", "a"), None),
+    ("list", None, ("xor", L("ValueLength", "equal_to", 2), L("Value", "equal_to", 5)), None),   # one branch undefined for numbers
 ]
 MOLS = [
     ("mol", k, i, v, None)
@@ -55,7 +59,7 @@ PARTS = PRIMS + BARE + MAPS + LISTS + MOLS
 PARTS20 = [PRIMS[0], PRIMS[3], PRIMS[4], PRIMS[6], PRIMS[7]] + BARE + [MAPS[0], MAPS[3], MAPS[6], MAPS[8]] + \
           [LISTS[0], LISTS[3], LISTS[5], LISTS[6]] + [MOLS[0], MOLS[2], MOLS[6], MOLS[7]]
 PARTS12 = [PRIMS[0], PRIMS[3], PRIMS[4]] + BARE + [MAPS[5], MAPS[7], LISTS[4], LISTS[6], MOLS[6], MOLS[7]]
-PARTS12X = PARTS12 + [MAPS[11], MOLS[-1]]
+PARTS12X = PARTS12 + [MAPS[11], MOLS[-1], MAPS[13], MAPS[14], MAPS[15], LISTS[8], PRIMS[9]]
 
 
 def paths(max_len, parts):
